@@ -115,7 +115,9 @@ func runC17(c *core.Ctx, o Options) {
 	checkEntryStorage(c, "S")
 	// T: entries and nested items created from templates keep their own tags: what AsTemplate builds is what is later serialized
 	checkTemplateRebuild(c, "T")
-	c.RuleMin = map[string]int{"P1": 10, "S": 15, "V": 43, "T": 2}
+	// P2: the bytes handed out for one serialization are not rewritten by the next one of the same message object
+	checkImageFresh(c, "P2")
+	c.RuleMin = map[string]int{"P1": 10, "S": 15, "V": 43, "T": 2, "P2": 2}
 	c.MinObl = 60
 }
 
